@@ -6,4 +6,6 @@ let table : (string * (Model.z list list -> Model.z list list)) list = [
   "arrayspec", Model.arr_spec_run;
   "resource", Model.res_run;
   "subject", Model.subj_run;
+  "subjectc", Model.subj_c_run;
+  "subjecta", Model.subj_a_run;
 ]
